@@ -3,7 +3,10 @@ package sim
 import (
 	"bytes"
 	"context"
+	"errors"
 	"fmt"
+	"sync/atomic"
+	"time"
 
 	"github.com/protolambda/zrnt/eth2/beacon"
 	"github.com/protolambda/zrnt/eth2/beacon/common"
@@ -133,4 +136,34 @@ func (l *Lock) Reload() error {
 	}
 	l.Lib, l.Epc = zb.Upgradeable(st), epc
 	return nil
+}
+
+// Blocked is set once a library call failed to return within its watchdog: the runaway goroutine
+// cannot be stopped, so every later case short-circuits (shrinking ends quickly).
+var Blocked atomic.Bool
+
+// ErrPoisoned: the process already holds a runaway library call; the case must end without a verdict.
+var ErrPoisoned = errors.New("skipped: an earlier library call never returned")
+
+// GuardTimeout runs fn under panic recovery and a watchdog.
+func GuardTimeout(d time.Duration, fn func() error) (err error, panicked bool, blocked bool) {
+	if Blocked.Load() {
+		return ErrPoisoned, false, false
+	}
+	type res struct {
+		err error
+		p   bool
+	}
+	ch := make(chan res, 1)
+	go func() {
+		e, p := Guard(fn)
+		ch <- res{e, p}
+	}()
+	select {
+	case r := <-ch:
+		return r.err, r.p, false
+	case <-time.After(d):
+		Blocked.Store(true)
+		return fmt.Errorf("call did not return within %v", d), false, true
+	}
 }
